@@ -246,6 +246,7 @@ def drive_e2e(case, workdir=None):
                 json.dump(evs, fh)
             paths.append(p)
         out = os.path.join(d, "out", case.get("out", "res.json"))
+        os.makedirs(os.path.dirname(out), exist_ok=True)
         argv = ["-i", ",".join(paths), "-o", out, "--freq", repr(case["f"]), "-D", "0"] + list(case.get("opts", []))
         with o, e_:
             try:
@@ -261,7 +262,8 @@ def drive_e2e(case, workdir=None):
         fs, fa = csv_names(out)
         if not (os.path.exists(fs) and os.path.exists(fa)):
             return {"err": "CsvMissing", "detail": sorted(os.listdir(os.path.join(d, "out")))}
-        js = [p for p in glob.glob(os.path.join(d, "out", "*.json")) if "_worker_" not in os.path.basename(p)]
+        js = [out] if os.path.isfile(out) else \
+            [p for p in glob.glob(os.path.join(os.path.dirname(out), "*.json")) if "_worker_" not in os.path.basename(p)]
         if len(js) != 1:
             return {"err": "ExportMissing", "detail": sorted(os.listdir(os.path.join(d, "out")))}
         slices = []
@@ -554,7 +556,7 @@ def gen_e2e(r):
             c = cs[-1] + r.randint(1, 8192)
         host = [{"name": "host op", "ts": 900.0 + i, "dur": 0.5} for i in range(r.randint(0, 2))]
         ranks.append({"pid": pid, "H": H, "kernels": ks, "host": host})
-    return {"kind": "e2e", "f": f, "opts": r.choice(E2E_OPTS), "out": r.choice(["res.json", "res.json", "my.run.json"]),
+    return {"kind": "e2e", "f": f, "opts": r.choice(E2E_OPTS), "out": r.choice(["res.json", "res.json", "my.run.json", "res", "run.v1/res", "run.v1/res.json"]),
             "ranks": ranks}
 
 
